@@ -1,7 +1,7 @@
 /* C14 harnesses: APBP mailboxes and semaphores (src/apbp.cpp) */
 #include "apbp_types.h"
 #include "apbp_spec.h"
-#include "apbp.h"
+#include "apbp_contracts.h"
 #include "common.h"
 int verif_outcome;
 int ghost_data_irq[3];
